@@ -137,6 +137,9 @@ fn grammar_cases() -> Vec<String> {
         "permtide from=foo to=bar", "permtide from=mean", "gridshift", "gridshift grids=", "gridshift grids=,", "gridshift grids=@", "gridshift grids=@null,@null", "gridshift grids=nosuch.datum", "gridshift grids=/etc/passwd",
         "gridshift grids=test.datum padding=NaN", "deformation grids=test.datum t_epoch=2000", "deformation grids=test.deformation", "deflection grids=test.datum", "deflection grids=test.deformation",
         "x:y", "geo:in", "geo:in inv", "geo:in | geo:out | gis:in inv", "nosuch:macro x=1", "helmert:helmert",
+        // self-referential macros (registered in every worker context)
+        "self:same", "self:same inv", "| self:same", "addone | self:same | addone", "self:pipe", "addone | self:pipe | addone", "self:arg", "self:arg x=2", "self:arg x=1",
+        "self:inv", "inv self:inv", "self:twice", "ping:a", "ping:b inv", "ping:a | ping:b", "self:same x=$y(1)",
     ] {
         defs.push(t.to_string());
     }
@@ -274,6 +277,16 @@ fn special_strings() -> Vec<String> {
 }
 
 /// Worker subject
+const SELF_REFERENTIAL_MACROS: [(&str, &str); 7] = [
+    ("self:same", "self:same"),
+    ("self:pipe", "addone | self:pipe"),
+    ("self:arg", "self:arg x=1"),
+    ("self:inv", "self:inv inv"),
+    ("self:twice", "self:twice | self:twice"),
+    ("ping:a", "ping:b"),
+    ("ping:b", "ping:a | addone"),
+];
+
 pub fn worker_subject(case: &str) -> String {
     if let Ok(wd) = std::env::var("MC_WORKDIR") {
         let _ = std::env::set_current_dir(wd);
@@ -310,10 +323,21 @@ pub fn worker_subject(case: &str) -> String {
                     }
                 }
             };
+            // every context knows a few self-referential macros: instantiating them must end with an error
+            // value, whatever the text of the invocation (identical at every level, or with arguments)
+            let adversarial_macros = |ctx: &mut dyn Context| {
+                for (name, body) in SELF_REFERENTIAL_MACROS {
+                    ctx.register_resource(name, body);
+                }
+            };
             if v["ctx"] == "minimal" {
-                run(&mut Minimal::new())
+                let mut ctx = Minimal::new();
+                adversarial_macros(&mut ctx);
+                run(&mut ctx)
             } else {
-                run(&mut Plain::new())
+                let mut ctx = Plain::new();
+                adversarial_macros(&mut ctx);
+                run(&mut ctx)
             }
         }
         "coords" => {
